@@ -14,7 +14,7 @@ Inductive bfn :=
 | B_Int_add | B_Int_sub | B_Int_mul | B_Int_pow | B_Int_div | B_Int_fdiv | B_Int_mod | B_Int_cmp
 | B_Int_eq | B_Int_neq | B_Int_neg | B_Int_B | B_Int_iter | B_Int_new | B_Int_bear | B_Int_incBy | B_Int_at
 | B_Str_add | B_Str_mul | B_Str_eq | B_Str_cmp | B_Str_B | B_Str_len | B_Str_at | B_Str_iter | B_Str_new
-| B_Str_uc | B_Str_lc | B_Str_symp
+| B_Str_uc | B_Str_lc | B_Str_symp | B_Str_incBy
 | B_Arr_add | B_Arr_mul | B_Arr_eq | B_Arr_B | B_Arr_len | B_Arr_at | B_Arr_iter | B_Arr_new | B_Arr_call
 | B_Arr_has | B_Arr_join | B_Arr_O | B_Arr_M | B_Arr_bear | B_Float_B | B_Float_eq | B_Float_cmp
 | B_Map_eq | B_Map_B | B_Map_len | B_Map_at | B_Map_iter | B_Map_keys | B_Map_values | B_Map_items
@@ -42,7 +42,7 @@ Definition bfn_table : list (string * bfn) :=
    ("Int#_iter", B_Int_iter); ("Int#new", B_Int_new); ("Int#bear", B_Int_bear); ("Int#_incBy", B_Int_incBy); ("Int#at", B_Int_at);
    ("Str#+", B_Str_add); ("Str#*", B_Str_mul); ("Str#==", B_Str_eq); ("Str#<=>", B_Str_cmp);
    ("Str#B", B_Str_B); ("Str#len", B_Str_len); ("Str#at", B_Str_at); ("Str#_iter", B_Str_iter);
-   ("Str#new", B_Str_new); ("Str#uc", B_Str_uc); ("Str#lc", B_Str_lc); ("Str#sym?", B_Str_symp);
+   ("Str#new", B_Str_new); ("Str#_incBy", B_Str_incBy); ("Str#uc", B_Str_uc); ("Str#lc", B_Str_lc); ("Str#sym?", B_Str_symp);
    ("Arr#+", B_Arr_add); ("Arr#*", B_Arr_mul); ("Arr#==", B_Arr_eq); ("Arr#B", B_Arr_B);
    ("Arr#len", B_Arr_len); ("Arr#at", B_Arr_at); ("Arr#_iter", B_Arr_iter); ("Arr#new", B_Arr_new);
    ("Arr#call", B_Arr_call); ("Arr#has?", B_Arr_has); ("Arr#join", B_Arr_join); ("Arr#O", B_Arr_O);
@@ -110,7 +110,8 @@ Record clo := { ckind : fkind; cparams : list string; ckw : list (string * val);
 Inductive biter :=
 | BIList (rest : list val)                 (* arr / str / obj / map iterators *)
 | BICount (next : Z) (max : Z)             (* Int#_iter: 1..max *)
-| BIRange (cur stop step : Z).             (* Range#_iter over ints *)
+| BIRange (cur stop step : Z)              (* Range#_iter over ints *)
+| BIGen (cur stop : val) (step : Z).       (* Range#_iter over anything else: `<=>` decides the end, `_incBy` gives the next value *)
 
 Record state := {
   heap : list objrec;      (* append-only *)
@@ -466,7 +467,8 @@ Fixpoint inspect (fuel : nat) (st : state) (v : val) : string :=
   | S f =>
     let ins := inspect f st in
     let pairs_str (ps : list (string * string)) :=
-        join ", " (map (fun kv => fst kv ++ ": " ++ snd kv) (sort_by fst ps)) in
+        (* by printed key; keys that print alike (floats differing beyond the 6th decimal) by printed value *)
+        join ", " (map (fun kv => fst kv ++ ": " ++ snd kv) (sort_by fst (sort_by snd ps))) in
     match v with
     | VInt _ z => Z_to_string z
     | VFloat _ t => t
